@@ -352,3 +352,79 @@ UNITS["v_value_error_from"] = dict(
         ],
         safety_id="C04.value_error_from.safety")],
 )
+
+# ------------------------------------------------------------------------------------------------
+CRUD = "src/value/value/crud/mod.rs"
+VEC_IMPL = "impl ValueCollection for Vec<Value>"
+RW_SELF = dict(**{"from": r"\bself\b", "to": "this", "regex": True, "why": "trait-impl method emitted as a free function (Verus has no inherent impls on Vec): self -> this"})
+LAWS = '''
+// ---- C18 laws as lemmas over the whole-sequence specs the real functions are proved against
+proof fn law_insert_then_get(s: Seq<Value>, key: int, v: Value)
+    ensures spec_get(spec_insert(s, key, v), key) == Some(v),
+{
+    let t = spec_insert(s, key, v);
+    if key >= 0 {
+        if key < s.len() { } else { assert(t.len() == key + 1); assert(t[key] == v); }
+    } else {
+        if -key <= s.len() { } else { assert(t.len() == -key); assert(t[0] == v); }
+    }
+}
+proof fn law_insert_frame_front(s: Seq<Value>, key: int, v: Value, j: int)
+    requires key >= 0, 0 <= j < s.len(), j != key,
+    ensures spec_insert(s, key, v)[j] == s[j],   // same position counted from the front
+{ }
+proof fn law_insert_frame_back(s: Seq<Value>, key: int, v: Value, j: int)
+    requires key < 0, 0 <= j < s.len(), j != s.len() + key,
+    ensures ({ let t = spec_insert(s, key, v); t[t.len() - (s.len() - j)] == s[j] }),   // same position counted from the back
+{ }
+proof fn law_remove_is_get(s: Seq<Value>, key: int)
+    ensures (spec_get(s, key) is None ==> spec_remove(s, key) == s),
+            (spec_get(s, key) is Some ==> spec_remove(s, key).len() == s.len() - 1),
+{ }
+'''
+
+UNITS["v_crud_vec"] = dict(
+    prop=["C18"], tier="q", prelude=["crud.rs"], extra=LAWS,
+    fns=[
+        dict(id="array_index", file=CRUD, impl=None, name="array_index",
+             orig_sig="fn array_index(array: &[Value], index: isize) -> Option<usize>",
+             sig="pub fn array_index(array: &[Value], index: isize) -> (r: Option<usize>)",
+             requires=["array@.len() <= isize::MAX"],
+             ensures=[("C18.array_index.spec", "an index addresses position i from the front when non-negative and len+i when negative; nothing when len+i < 0",
+                       "(match spec_index(array@.len() as int, index as int) { Some(i) => r == Some(i as usize), None => r is None })")],
+             safety_id="C18.array_index.safety", safety_text="no overflow in `len as isize + index`"),
+        dict(id="get_value", file=CRUD, impl=VEC_IMPL, name="get_value",
+             orig_sig="fn get_value(&self, key: &Self::Key) -> Option<&Value>",
+             sig="pub fn get_value<'a>(this: &'a Vec<Value>, key: &isize) -> (r: Option<&'a Value>)",
+             requires=["this@.len() <= isize::MAX"],
+             desugar=["and_then"],
+             rewrites=[RW_SELF, dict(**{"from": "array_index(this,", "to": "array_index(this.as_slice(),", "why": "explicit deref coercion &Vec -> &[T]"}),
+                       dict(**{"from": "this.get(index)", "to": "(if index < this.len() { Some(&this[index]) } else { None })", "why": "slice::get by definition"})],
+             ensures=[("C18.get_value.spec", "reading an index returns the addressed element, or nothing when out of range",
+                       "opt_val(r) == spec_get(this@, *key as int)")],
+             safety_id="C18.get_value.safety"),
+        dict(id="insert_value", file=CRUD, impl=VEC_IMPL, name="insert_value",
+             orig_sig="fn insert_value(&mut self, key: isize, value: Value) -> Option<Value>",
+             sig="pub fn insert_value(this: &mut Vec<Value>, key: isize, value: Value) -> (r: Option<Value>)",
+             requires=["old(this)@.len() <= isize::MAX", "key > isize::MIN", "old(this)@.len() + (if key >= 0 { key as int } else { -(key as int) }) < isize::MAX"],
+             rewrites=[RW_SELF],
+             loops={"_count": 2,
+                    0: dict(spec="invariant key >= 0, this@.len() <= key as usize + 1, this@.len() >= old(this)@.len(), this@ == old(this)@ + nulls((this@.len() - old(this)@.len()) as nat), old(this)@.len() <= key as usize,\n decreases key as usize + 1 - this@.len(),"),
+                    1: dict(spec="invariant key < 0, len_required == (-key) as usize, this@.len() >= old(this)@.len(), this@.len() <= len_required - 1, this@ == nulls((this@.len() - old(this)@.len()) as nat) + old(this)@, old(this)@.len() < len_required,\n decreases len_required - 1 - this@.len(),")},
+             ensures=[("C18.insert_value.whole", "after inserting, the whole array equals the specified result: the addressed slot holds the value, padding is null, every other element is kept (same position from the end the index counts from)",
+                       "final(this)@ == spec_insert(old(this)@, key as int, value)"),
+                      ("C18.insert_value.previous", "the previous element at the addressed slot is returned (nothing when the array had to grow)",
+                       "r == spec_get(old(this)@, key as int)")],
+             safety_id="C18.insert_value.safety", safety_text="no overflow, indexing in bounds, both padding loops terminate"),
+        dict(id="remove_value", file=CRUD, impl=VEC_IMPL, name="remove_value",
+             orig_sig="fn remove_value(&mut self, key: &isize) -> Option<Value>",
+             sig="pub fn remove_value(this: &mut Vec<Value>, key: &isize) -> (r: Option<Value>)",
+             requires=["old(this)@.len() <= isize::MAX"],
+             rewrites=[RW_SELF, dict(**{"from": "array_index(this,", "to": "array_index(this.as_slice(),", "why": "explicit deref coercion &Vec -> &[T]"})],
+             ensures=[("C18.remove_value.returns_get", "removing returns exactly what reading the index returned before",
+                       "r == spec_get(old(this)@, *key as int)"),
+                      ("C18.remove_value.whole", "removing deletes exactly the addressed element and keeps every other element in order; an out-of-range index changes nothing",
+                       "final(this)@ == spec_remove(old(this)@, *key as int)")],
+             safety_id="C18.remove_value.safety"),
+    ],
+)
